@@ -1,0 +1,24 @@
+//go:build verif
+
+package metric
+
+// Contracts for the verification harness under /verif (comment-only file).
+//
+// C13: label values of the held metrics come from event fields (mask's
+// applied_metric_labels, throttle's distribution metrics, ...), and prometheus
+// panics on a label value that is not valid UTF-8.  After truncateLabels every
+// label value is valid UTF-8 (up_validutf8 is the uninterpreted outcome of
+// utf8.ValidString; strings.ToValidUTF8 is trusted to return valid text), and the
+// cut never slices out of range.
+
+//@ func (*heldMetricsStore[T]).truncateLabels
+//@   requires h.metricMaxLabelValueLength >= 0
+//@   modifies lvs
+//@   ensures forall k :: 0 <= k && k < len(lvs) ==> up_validutf8(lvs[k])
+//@   loop 1 invariant rangeindex < len(lvs) && (forall k :: 0 <= k && k <= rangeindex ==> up_validutf8(lvs[k]))
+//@   callee ValidString(s) (r)
+//@     pure
+//@     ensures r == up_validutf8(s)
+//@   callee ToValidUTF8(s, rep) (r)
+//@     pure
+//@     ensures up_validutf8(r)
